@@ -56,11 +56,11 @@ TYPE_TO_JSON_TYPE = {
 
 
 def bad_type(data: Any, *expected: type) -> ValidationError:
-    msgs = [
-        f"expected type {JsonType.from_type(tp)},"
-        f" found {JsonType.from_type(data.__class__)}"
-        for tp in expected
-    ]
+    try:
+        found: Any = JsonType.from_type(data.__class__)
+    except TypeError:  # data is not JSON-like, e.g. a tuple or bytes
+        found = data.__class__.__name__
+    msgs = [f"expected type {JsonType.from_type(tp)}, found {found}" for tp in expected]
     return ValidationError(msgs)
 
 
